@@ -14,7 +14,10 @@ DATA = json.load(open(os.path.join(SPEC, "data", "phase_pool.json")))
 
 def gaf_line(r, k):
     cols = [r["name"], "20", "2", "12", r["strand"], r["path"], "30", str(1 + k % 3), str(11 + k % 3), "9", "10", str((k * 17) % 61)]
-    return "\t".join(cols + [":".join(f) for f in r["opt"]])
+    opt = [":".join(f) for f in r["opt"]]
+    if k % 4 == 1 and opt:      # minigraph's difference string in the MIDDLE of the optional fields (sort appends its fields behind it)
+        opt.insert(1, "ds:Z:*+a3-cc:1")
+    return "\t".join(cols + opt)
 
 
 def split_line(line):
